@@ -232,6 +232,23 @@ def judge_edges(case, col):
                         raise Violation("point_outside_returned_cell", sub, observed=f"outside by {-m:.3g} cell widths (cell {hex(got)}; built {depth} widths inside {hex(cell)})",
                                         expected="a cell containing the point")
                     col.count("edge_dense_other_cell_also_contains")
+    # the corners themselves: points 0.15 % and 0.4 % of a cell width inside each vertex
+    for e in range(nv):
+        q = ring[32 * e]
+        dist = refgeo.gc_dist(q, centre)
+        if dist <= 0:
+            continue
+        for depth in (0.0015, 0.004):
+            p = refgeo.toward(q, centre, depth * L / dist)
+            sub = {"lon": p[0], "lat": p[1], "res": res, "cls": "edge_dense"}
+            got = guarded(a5.lonlat_to_cell, p, res, kind="lonlat_to_cell_raised", case=sub)
+            pts += 1
+            if got != cell:
+                verdict, m = contains(p, got, res)
+                if verdict == "out":
+                    raise Violation("point_outside_returned_cell", sub, observed=f"outside by {-m:.3g} cell widths (cell {hex(got)}; built {depth} widths inside a vertex of {hex(cell)})",
+                                    expected="a cell containing the point")
+                col.count("edge_dense_other_cell_also_contains")
     col.count("edge_dense_points", pts)
     colat = 90.0 - abs(case["lat"])
     col.case({"lon": case["lon"], "lat": case["lat"], "res": res}, nontrivial=True,
